@@ -1026,7 +1026,10 @@ def _param_default(fn, name: str):
 #          folded into `==`, `is`, `<` plus a polarity).
 # A rule then asks *which value reaches which use under which conditions* instead of looking for a statement shape.
 # Loop bodies are walked once from a state in which everything the loop assigns is unknown; a statement that may
-# change heap state (store, mutating or unknown call) forgets the facts and values that read that state.
+# change heap state (store, mutating or unknown call) forgets the facts and values that read that state.  What a
+# summarised helper changed through one of its parameters is forgotten for the variables of the argument bound to it
+# (the callee's own names mean nothing to the caller).  A conditional expression anywhere in an evaluated position of a
+# value forks the path like an `if` statement.
 
 _PURE_FUNCS = {'len', 'set', 'list', 'tuple', 'dict', 'sorted', 'frozenset', 'Path', 'getattr', 'isinstance', 'int',
                'float', 'str', 'abs', 'min', 'max', 'sum', 'range', 'enumerate', 'zip', 'bool', 'type', 'hasattr',
@@ -1517,6 +1520,22 @@ class Sym:
         for rst, rv, _ in sub.returns:
             new = SymState(st.env, rst.facts, rst.epoch, rst.clob)
             gone = {_base_id(r) for r in rst.clob} - {_base_id(r) for r in st.clob}
+            # the callee's names are its own: what it changed through a parameter is, for the caller, the heap
+            # reachable from the variables of the argument bound to it; what it changed through one of its locals
+            # (an object it made itself) is nothing the caller can see.  The helper runs on the same object under
+            # the same receiver name; nested functions share the caller's variables.
+            if '<locals>' not in callee.qualname:
+                mine = set()
+                for r in gone:
+                    if same_recv and sub.recv is not None and r == sub.recv:
+                        mine.add(self.recv)
+                    elif r in bind:
+                        mine |= {_base_id(x.id) for x in ast.walk(bind[r]) if isinstance(x, ast.Name)} & self._locals
+                gone = mine
+                new.clob = set(st.clob) | gone
+                new.epoch = dict(st.epoch)
+                for r in gone:
+                    new.epoch[r] = new.epoch.get(r, 0) + 1
             if gone:
                 for k, v in list(new.env.items()):
                     if any(mentions_heap(v, r) for r in gone) or ('.' in k and k.split('.')[0] in gone):
@@ -1554,6 +1573,19 @@ class Sym:
                 r = self._call(callee, e, st)
                 if r is not None:
                     return r
+        # a conditional expression inside the value (`i - (t[f - 1] if f > 0 else 0)`): one path per feasible branch,
+        # exactly as if the branch had been taken by an `if` statement around the assignment
+        inner = _first_ifexp(e)
+        if inner is not None:
+            path, node = inner
+            test = self.ev(node.test, st)
+            self.effects(node.test, st)
+            out = []
+            for pol, branch in ((True, node.body), (False, node.orelse)):
+                st2 = st.fork()
+                if self.assume(st2, test, pol):
+                    out += self.value_states(_replaced(e, path, branch), st2)
+            return out
         v = self.ev(e, st)
         self.effects(e, st)
         return [(st, v)]
@@ -1767,6 +1799,38 @@ class Sym:
             for t in s.targets:
                 if not isinstance(t, ast.Name):
                     self.bind(t, self._fresh('del', s), st)
+
+
+def _first_ifexp(e: ast.AST, path=()):
+    """(path, node) of the first conditional expression in e that is evaluated whenever e is (not inside a lambda, a
+    comprehension, the right-hand side of and / or, or another conditional expression's branches)"""
+    for field, val in ast.iter_fields(e):
+        kids = [(field, None, val)] if isinstance(val, ast.AST) else \
+            [(field, i, x) for i, x in enumerate(val) if isinstance(x, ast.AST)] if isinstance(val, list) else []
+        for f, i, x in kids:
+            if isinstance(x, (ast.Lambda, ast.ListComp, ast.SetComp, ast.DictComp, ast.GeneratorExp)):
+                continue
+            if isinstance(e, ast.BoolOp) and f == 'values' and i:
+                continue
+            if isinstance(x, ast.IfExp):
+                return path + ((f, i),), x
+            r = _first_ifexp(x, path + ((f, i),))
+            if r is not None:
+                return r
+    return None
+
+
+def _replaced(e: ast.AST, path, repl: ast.AST) -> ast.AST:
+    new = copy.deepcopy(e)
+    cur = new
+    for f, i in path[:-1]:
+        cur = getattr(cur, f) if i is None else getattr(cur, f)[i]
+    f, i = path[-1]
+    if i is None:
+        setattr(cur, f, copy.deepcopy(repl))
+    else:
+        getattr(cur, f)[i] = copy.deepcopy(repl)
+    return new
 
 
 def sym_show(e: ast.AST | None) -> str:
